@@ -600,7 +600,7 @@ func c13Result(cs *vrt.Case, r *vrt.Rng) {
 		enc, want = big.NewInt(int64(b2i(b))), b
 	case 3:
 		// array of ints/uints
-		es := vrt.Pick(r, []int{1, 7, 8, 9, 16, 32, 33, 64})
+		es := vrt.Pick(r, []int{1, 7, 8, 9, 16, 32, 33, 64, 65, 100, 128, 130})
 		signed := r.Bool()
 		cnt := r.Range(1, 6)
 		el := uintT(es)
